@@ -30,19 +30,29 @@ def bus_jobs(tier):
             for u in (0, 1) for pre in ((1,) if tier == "quick" else (1, 2))]
 
 
+from props import C15 as _c15
+
+
+def repmap_jobs(tier):
+    return [{"id": f"O5.replicator-table.push-vs-configure.preempt{pre}", "func": "VerifH_C16_ReplicatorMap", "conf": {"preempt": pre, "calls": 0, "restart": 0, "nested": 0},
+             "_obligation": "O5", "_covers": ["ran"], "_schedule_replay": True, "unwind": 40} for pre in ((1,) if tier == "quick" else (1, 2))]
+
+
 PROPERTY = {
     "id": "C16",
     "suites": [{"name": "datastore", "pkg": "internal/datastore", "files": ["zz_verif_txn.go"], "common": ["intrinsics", "kvmodel"], "jobs": jobs},
+               dict(_c15.PROPERTY["suites"][0], name="replicatortable", jobs=repmap_jobs),
                {"name": "bus", "pkg": "event", "files": ["zz_verif_c20.go"], "common": ["intrinsics"], "jobs": bus_jobs, "unwind": 40},
                {"name": "mergequeue", "pkg": "internal/db", "files": ["zz_verif_c16mq.go"], "common": ["intrinsics"], "jobs": mq_jobs}],
     "bounds": {"stores": STORES, "operations": OPS, "keys/values": "one symbolic byte each",
                "goroutine schedules (O2, O3)": "interpreted goroutines run one at a time; a switch happens where a goroutine blocks, ends or yields (vYield, Gosched, Sleep) and, up to the job's preemption budget (0-2 quick, up to 3 thorough), before a mutex acquire, after a release, at a channel operation and at a go statement; every such schedule is explored (each choice is a logged decision of the path)",
                "O2 merge queue": "2 goroutines (2 preemptions), 3 (0 and 1), 4 (0); documents chosen by the solver among two",
+               "O5 replicator table": "1 goroutine pushing an update event of the first collection, 1 goroutine configuring the second replicator for any subset of the two collections; 1 preemption (thorough 2); libp2p host and block service are no-op fakes, the per-peer push goroutines are deferred (source patch shared with C15)",
                "O4 event bus": "the real bus goroutine, 1 subscriber, 2 publishing goroutines (1 message each), optionally 1 unsubscribing goroutine, then Close; 1 preemption (thorough 2); buffers of 4",
                "O3 shared transaction": "2 goroutines, 1 operation each (Set / Get / Has / Iterator+Next+Close) through any of 7 store accessors (data, head, system, peer, root, the store beneath the block store, the store beneath the key store), then a read-back; 1 preemption (thorough 2)"},
     "assumptions": ["O: sync.Mutex is ghost state; the obligation is the sufficient condition 'every root-transaction access happens with the wrapper mutex held'",
                     "O2/O3: sequentially consistent interleaving at synchronisation operations; happens-before edges from mutexes, channels (send->receive, close->receive, receive->send completion on unbuffered channels), WaitGroup, Once, atomics and go statements; the data-race detector watches every load, store and map operation executed by the interpreter (accesses made inside engine-side models of library functions are not watched: a race there is missed, none is invented)",
                     "O3: the root transaction is not safe for concurrent use (kvmodel counts every operation in an unsynchronised field), as a badger transaction is not",
                     "schedule-dependent counterexamples are replayed natively by repetition (random pauses at the yield points, go test -race for data races): the goroutine schedule cannot be forced natively"],
-    "outside_claim": ["weak-memory effects and preemption between two plain memory accesses (a data race is reported by the happens-before detector instead)", "more goroutines / preemptions than the bounds", "Commit/Discard concurrent with other calls", "the replicator map of net.Peer, db.handleMessages as a whole (its merge goroutines run executeMerge: planner, transactions)", "requests, collection operations and index changes issued concurrently against a whole node"],
+    "outside_claim": ["weak-memory effects and preemption between two plain memory accesses (a data race is reported by the happens-before detector instead)", "more goroutines / preemptions than the bounds", "Commit/Discard concurrent with other calls", "db.handleMessages as a whole (its merge goroutines run executeMerge: planner, transactions)", "requests, collection operations and index changes issued concurrently against a whole node"],
 }
